@@ -161,6 +161,7 @@ func solvePart(u *Unit, ob *Obligation, idx int, workDir string, tier string, se
 			res.Verdict, res.Backend, res.Output = v, sp.Name, out
 		}
 	}
+	res.Disagree = disagreement(res)
 	return res
 }
 
@@ -207,6 +208,9 @@ func solveAll(obls []*Obligation, workDir, tier string, seed int) {
 		agg := &SolveResult{Verdict: "unsat", All: map[string]string{}}
 		for _, r := range rs {
 			agg.Ms += r.Ms
+			if r.Disagree {
+				agg.Disagree = true
+			}
 			for k, v := range r.All {
 				if prev, ok := agg.All[k]; !ok || prev == "unsat" || prev == "trivial" {
 					agg.All[k] = v
